@@ -58,6 +58,9 @@ class Fn:
         self.meta_vars = set()
         self.slots = None
         self.problems = []     # per-element decisions taken from another element (filled by atom())
+        self.param_roles = {}  # helper methods: parameter -> roles of the argument at the (single) call site
+        self.param_consts = {}  # helper methods: parameter -> literal passed
+        self.cache_params = set()  # helper methods: parameters that receive self._con_cache
 
     def at(self, node):
         st = node if isinstance(node, ast.stmt) else astx.stmt_of(node)
@@ -235,6 +238,8 @@ def roles(F, e, at, st=None, depth=0):
         ds = F.describe_defs(at, e.id)
         if not ds:
             return {UNKNOWN}
+        if len(ds) == 1 and ds[0][0] == 'param' and e.id in F.param_roles:
+            return set(F.param_roles[e.id])
         # `v = <whole>` followed by `if isinstance(v, np.ndarray): v = v[i]`
         selfsub = [x for x in ds if x[0] == 'expr' and isinstance(x[1], ast.Subscript) and
                    isinstance(x[1].value, ast.Name) and x[1].value.id == e.id]
@@ -277,6 +282,13 @@ def roles(F, e, at, st=None, depth=0):
         key = astx.const_str(e.slice)
         if key in ('lower', 'upper', 'equals') and is_meta(F, e.value, at):
             return {(key + RAW, 'whole')}    # model units: fine for finiteness tests, not for arithmetic
+        tup = e.value
+        if isinstance(tup, ast.Name):
+            v, d = F.value_of(at, tup.id)
+            tup = v if v is not None else tup
+        if _is_bounds_call(tup) and isinstance(e.slice, ast.Constant) and isinstance(e.slice.value, int) and F.slots:
+            i = e.slice.value
+            return {(F.slots[i], 'container')} if -3 <= i < 3 else {UNKNOWN}
         base = roles(F, e.value, at, st, depth + 1)
         out = set()
         for k, s in base:
@@ -290,6 +302,12 @@ def roles(F, e, at, st=None, depth=0):
                 out.add(UNKNOWN)
         return out
     return {UNKNOWN}
+
+
+def _is_bounds_call(call):
+    return isinstance(call, ast.Call) and astx.callee_attr(call) == 'get_bounds_scaling' and \
+        astx.path(astx.receiver(call)) == 'self._autoscaler' and bool(call.args) and \
+        astx.const_str(call.args[0]) == 'constraint'
 
 
 def one_role(F, e, at, st=None):
@@ -333,6 +351,8 @@ def atom(F, e, at, st):
         ds = F.describe_defs(at, e.id)
         if len(ds) == 1 and ds[0][0] == 'param' and e.id == F.dbl_var:
             return st.get('dbl')
+        if len(ds) == 1 and ds[0][0] == 'param' and e.id in F.param_consts:
+            return bool(F.param_consts[e.id])
         if len(ds) == 1 and ds[0][0] == 'expr':
             return ev3(ds[0][1], lambda a: atom(F, a, ds[0][2], st))
         return None
@@ -619,23 +639,35 @@ class Run:
                     (good if astx.path(astx.receiver(c)) == self.list_name else other).append(n)
         return good, other
 
+    @staticmethod
+    def _dict_literal(v):
+        """{key: value expr} of `{...}` / `dict(k=v)` with literal string keys, else None."""
+        if isinstance(v, ast.Dict):
+            if all(k is not None and astx.const_str(k) is not None for k in v.keys):
+                return {astx.const_str(k): x for k, x in zip(v.keys, v.values)}
+            return None
+        if isinstance(v, ast.Call) and astx.call_name(v) == 'dict' and not v.args and \
+                all(k.arg is not None for k in v.keywords):
+            return {k.arg: k.value for k in v.keywords}
+        return None
+
     def creations(self):
         """[(kind, var, stmt)] constraint objects created inside the constraint loop."""
         out = []
-        dict_vars = set()
+        fun_stores = set()
         for s in astx.walk_stmts(self.cons_loop.body):
             if isinstance(s, ast.Assign) and len(s.targets) == 1 and isinstance(s.targets[0], ast.Subscript) \
                     and isinstance(s.targets[0].value, ast.Name) and astx.const_str(s.targets[0].slice) == 'fun':
-                dict_vars.add(s.targets[0].value.id)
+                fun_stores.add(s.targets[0].value.id)
         for s in astx.walk_stmts(self.cons_loop.body):
             if not (isinstance(s, ast.Assign) and len(s.targets) == 1 and isinstance(s.targets[0], ast.Name)):
                 continue
             v = s.value
             if isinstance(v, ast.Call) and astx.callee_attr(v) in ('NonlinearConstraint', 'LinearConstraint'):
                 out.append((astx.callee_attr(v), s.targets[0].id, s))
-            elif s.targets[0].id in dict_vars and (
-                    (isinstance(v, ast.Dict) and not v.keys) or
-                    (isinstance(v, ast.Call) and astx.call_name(v) == 'dict' and not v.args and not v.keywords)):
+                continue
+            lit = self._dict_literal(v)
+            if lit is not None and (s.targets[0].id in fun_stores or 'fun' in lit):
                 out.append(('dict', s.targets[0].id, s))
         return out
 
@@ -652,6 +684,8 @@ class Run:
         """{'fun': [(stmt, value)], ...} stores into dict *var* in the loop of its creation."""
         loop = self.loop_of(creation)
         out = {}
+        for k, x in (self._dict_literal(creation.value) or {}).items():
+            out.setdefault(k, []).append((creation, x))
         for s in astx.walk_stmts(loop.body):
             if isinstance(s, ast.Assign) and len(s.targets) == 1 and isinstance(s.targets[0], ast.Subscript) \
                     and isinstance(s.targets[0].value, ast.Name) and s.targets[0].value.id == var:
@@ -716,20 +750,82 @@ def parse_args_list(F, e, at, loopvar):
 class Callback:
     """A constraint callback f(self, x, name, dbl, idx): abstract evaluation of its returns."""
 
-    def __init__(self, repo, method, slots):
+    def __init__(self, repo, method, slots, binding=None, depth=0):
+        self.repo = repo
+        self.depth = depth
         self.fn = repo.func(SCIPY, f'{DRV}.{method}')
         self.F = F = Fn(self.fn)
-        if len(F.params) != 5:
-            raise AnalysisError(f'{self.fn.ident}: expected (self, x, name, dbl, idx)')
-        F.name_var, F.dbl_var, F.idx_var = F.params[2], F.params[3], F.params[4]
         F.slots = slots
-        # the three protocol arguments must stay what scipy passed
+        if binding is None:
+            if len(F.params) != 5:
+                raise AnalysisError(f'{self.fn.ident}: expected (self, x, name, dbl, idx)')
+            F.name_var, F.dbl_var, F.idx_var = F.params[2], F.params[3], F.params[4]
+            protected = set(F.params[2:5])
+        else:
+            # a private helper the callback returns through: its parameters mean what the call site passes
+            F.name_var, F.dbl_var, F.idx_var = binding.get('name'), binding.get('dbl'), binding.get('idx')
+            F.param_roles = binding.get('roles', {})
+            F.param_consts = binding.get('consts', {})
+            F.cache_params = binding.get('cache', set())
+            protected = {x for x in (F.name_var, F.dbl_var, F.idx_var) if x} | set(F.param_roles) | \
+                set(F.param_consts) | set(F.cache_params)
+        self.owner = {}     # return node of a helper -> the helper's Callback
+        self._helpers = {}
+        # the protocol arguments must stay what scipy passed
         self.rebound = []
         for n in F.g.nodes:
             if n.kind in ('stmt', 'iter', 'with') and n.ast is not None:
                 for t in astx.assigned_targets(n.ast):
-                    if isinstance(t, ast.Name) and t.id in F.params[2:5]:
+                    if isinstance(t, ast.Name) and t.id in protected:
                         self.rebound.append((t.id, n.ast))
+
+    def fn_of(self, ret):
+        return self.owner[ret].fn_of(ret) if ret in self.owner else self.fn
+
+    def _helper(self, ret):
+        """Callback of the private method whose result `return self.m(...)` hands back, or None."""
+        call = ret.ast.value
+        if not (isinstance(call, ast.Call) and isinstance(call.func, ast.Attribute) and
+                astx.path(call.func.value) == 'self') or self.depth >= 2:
+            return None
+        meth = call.func.attr
+        hf = self.repo.try_func(SCIPY, f'{DRV}.{meth}')
+        if hf is None or any(isinstance(a, ast.Starred) for a in call.args) or any(k.arg is None for k in call.keywords):
+            return None
+        if id(ret) in self._helpers:
+            return self._helpers[id(ret)]
+        F = self.F
+        a = hf.node.args
+        hparams = [x.arg for x in a.posonlyargs + a.args][1:]
+        pairs = list(zip(hparams, call.args)) + [(k.arg, k.value) for k in call.keywords if k.arg in hparams]
+        b = dict(roles={}, consts={}, cache=set())
+
+        def intact(nm):
+            ds = F.describe_defs(ret, nm)
+            return len(ds) == 1 and ds[0][0] == 'param'
+        for pn, ae in pairs:
+            if isinstance(ae, ast.Name) and intact(ae.id) and ae.id in (F.name_var, F.dbl_var, F.idx_var):
+                b['name' if ae.id == F.name_var else 'dbl' if ae.id == F.dbl_var else 'idx'] = pn
+                continue
+            if isinstance(ae, ast.Constant) and isinstance(ae.value, bool):
+                b['consts'][pn] = ae.value
+                continue
+            c = ae
+            if isinstance(c, ast.Name):
+                if intact(c.id) and c.id in F.cache_params:
+                    b['cache'].add(pn)
+                    continue
+                v, d = F.value_of(ret, c.id)
+                c = v if v is not None else c
+            if astx.path(c) == 'self._con_cache':
+                b['cache'].add(pn)
+                continue
+            r = roles(F, ae, ret, None)
+            if UNKNOWN not in r:
+                b['roles'][pn] = r
+        h = Callback(self.repo, meth, F.slots, binding=b, depth=self.depth + 1)
+        self._helpers[id(ret)] = h
+        return h
 
     def params_intact(self, out):
         """Report rebinding of (name, dbl, idx); True when the arguments are used as passed."""
@@ -756,7 +852,17 @@ class Callback:
                 fell = True
                 continue
             if n.kind == 'stmt' and isinstance(n.ast, ast.Return):
-                rets.append(n)
+                h = self._helper(n)
+                if h is not None:
+                    # `return self._helper(...)`: the helper's returns are this callback's returns
+                    self.rebound += [x for x in h.rebound if x not in self.rebound]
+                    hr, hfell = h.returns(st)
+                    fell = fell or hfell
+                    for r in hr:
+                        self.owner[r] = h
+                    rets.extend(hr)
+                else:
+                    rets.append(n)
                 continue
             if n.kind == 'stmt' and isinstance(n.ast, ast.Expr) and isinstance(n.ast.value, ast.Call) and \
                     astx.call_name(n.ast.value) == 'self._reraise':
@@ -780,8 +886,12 @@ class Callback:
             return None
         c = e.value.value
         if isinstance(c, ast.Name):
-            v, d = F.value_of(at, c.id)
-            c = v
+            ds = F.describe_defs(at, c.id)
+            if len(ds) == 1 and ds[0][0] == 'param' and c.id in F.cache_params:
+                c = ast.parse('self._con_cache', mode='eval').body
+            else:
+                v, d = F.value_of(at, c.id)
+                c = v
         if astx.path(c) != 'self._con_cache':
             return None
         nm, ix = e.value.slice, e.slice
@@ -789,6 +899,8 @@ class Callback:
 
     def value_form(self, ret, st):
         """(kind, sign of the constraint value, problem or None) of `return expr`; None if unrecognised."""
+        if ret in self.owner:
+            return self.owner[ret].value_form(ret, st)
         F = self.F
         e = ret.ast.value
         if e is None:
@@ -819,6 +931,8 @@ class Callback:
 
     def grad_sign(self, ret):
         """+1 / -1 for `return grad[row, :]` / `return -grad[row, :]`, with row checked; else None."""
+        if ret in self.owner:
+            return self.owner[ret].grad_sign(ret)
         F = self.F
         e = ret.ast.value
         sign = 1
@@ -919,6 +1033,29 @@ def presence(R, em, st):
     return None
 
 
+def str_value(F, e, at, st, depth=0):
+    """The string an expression evaluates to in state st (through locals and `a if c else b`), else None."""
+    if depth > 6 or e is None:
+        return None
+    if astx.const_str(e) is not None:
+        return astx.const_str(e)
+    if isinstance(e, ast.Name):
+        got = set()
+        for k, p, d in F.describe_defs(at, e.id):
+            if k != 'expr':
+                return None
+            if d.kind == 'stmt' and cond3(F, d.ast, st) is False:
+                continue
+            got.add(str_value(F, p, d, st, depth + 1))
+        return got.pop() if len(got) == 1 else None
+    if isinstance(e, ast.IfExp):
+        v = ev3(e.test, lambda a: atom(F, a, at, st))
+        if v is None:
+            return None
+        return str_value(F, e.body if v else e.orelse, at, st, depth + 1)
+    return None
+
+
 def type_in(R, em, st):
     """'eq' / 'ineq' / None(unknown) of an old-style dict in state st."""
     R.F.idx_var = em['loop'].target.id
@@ -927,9 +1064,10 @@ def type_in(R, em, st):
         c = cond3(R.F, s, st, stop=em['loop'])
         if c is False:
             continue
-        if c is None or astx.const_str(v) is None:
+        sv = str_value(R.F, v, R.F.at(s), st)
+        if c is None or sv is None:
             return None
-        got.add(astx.const_str(v))
+        got.add(sv)
     return got.pop() if len(got) == 1 else None
 
 
@@ -1113,9 +1251,9 @@ def _cover_state(repo, R, ems, st, reported, out):
         fset = set()
         for r, vf in zip(rets, vfs):
             if vf is None:
-                return 'unsure', (cb.fn, r.ast, f'unrecognised constraint form in state {fmt_state(s2)}')
+                return 'unsure', (cb.fn_of(r), r.ast, f'unrecognised constraint form in state {fmt_state(s2)}')
             if vf[2]:
-                bad = (cb.fn, r.ast, f'{vf[2]} (state {fmt_state(s2)})', 'wrong-element')
+                bad = (cb.fn_of(r), r.ast, f'{vf[2]} (state {fmt_state(s2)})', 'wrong-element')
             fset.add(vf[:2])
         if fell or len(fset) != 1:
             if bad is None:
@@ -1129,10 +1267,10 @@ def _cover_state(repo, R, ems, st, reported, out):
         forms.append((kind, sign, ty, em))
         if bad is None and not _form_ok(kind, sign) and kind != 'raw':
             nice = {('upper', 1): 'value - upper', ('lower', -1): 'lower - value'}[(kind, sign)]
-            bad = (cb.fn, rets[0].ast, f'with dbl={em["dbl"]} in state {fmt_state(s2)} the callback returns '
+            bad = (cb.fn_of(rets[0]), rets[0].ast, f'with dbl={em["dbl"]} in state {fmt_state(s2)} the callback returns '
                    f'`{nice}`, which scipy (feasible when >= 0) reads as the opposite inequality', 'form-sign')
         if bad is None and kind == 'raw':
-            bad = (cb.fn, rets[0].ast, 'old-style callback returns the raw value: no bound is applied', 'form-raw')
+            bad = (cb.fn_of(rets[0]), rets[0].ast, 'old-style callback returns the raw value: no bound is applied', 'form-raw')
         if bad is None and st['E'] and (ty != 'eq' or kind != 'equals'):
             bad = (R.fn, em['stmt'], f"equality constraint is emitted as type {ty!r} with form {kind}: "
                    "the equals value is not enforced", 'eq-type')
@@ -1195,15 +1333,15 @@ def sign(repo, out):
             for r in fr:
                 vf = cf.value_form(r, s2)
                 if vf is None:
-                    unsure = (cf.fn, r.ast, 'unrecognised value form')
+                    unsure = (cf.fn_of(r), r.ast, 'unrecognised value form')
                 else:
                     fs.add(vf[1])
             for r in jr:
                 gs = cj.grad_sign(r)
                 if gs is None:
-                    unsure = (cj.fn, r.ast, 'unrecognised gradient form (expected [-]grad[self._con_idx[name] + idx, :])')
+                    unsure = (cj.fn_of(r), r.ast, 'unrecognised gradient form (expected [-]grad[self._con_idx[name] + idx, :])')
                 elif not gs[1]:
-                    bad = bad or (cj.fn, r.ast, 'the gradient row is not self._con_idx[name] + idx: the jacobian of '
+                    bad = bad or (cj.fn_of(r), r.ast, 'the gradient row is not self._con_idx[name] + idx: the jacobian of '
                                   'another element/constraint is returned', 'grad-row')
                     js.add(gs[0])
                 else:
@@ -1481,11 +1619,14 @@ def cache(repo, out):
     for meth in ('_confunc', '_con_val_func'):
         cb = callback(repo, meth, producer_slots(repo))
         n = 0
-        for r in cb.F.g.where(lambda n: n.kind == 'stmt' and isinstance(n.ast, ast.Return)):
-            for e in astx.walk(r.ast):
-                v = cb.is_value(e, r) if isinstance(e, ast.Subscript) else None
-                if v is not None:
-                    n += 1
+        seen_r = set()
+        for st in STATES:
+            for dbl in (False, True):
+                s2 = dict(st, dbl=dbl)
+                for r in cb.returns(s2)[0]:
+                    if r not in seen_r and cb.value_form(r, s2) is not None:
+                        seen_r.add(r)
+                        n += 1
         reruns = [c for c in astx.calls(cb.fn.node) if astx.call_name(c) == 'self._objfunc']
         for c in reruns:
             if not (len(c.args) == 1 and isinstance(c.args[0], ast.Name) and c.args[0].id == cb.F.params[1]):
@@ -1528,6 +1669,8 @@ def index(repo, out):
         lin = None
         for test, pol, ifn in guards(s.ast, R.cons_loop):
             tv = test
+            while isinstance(tv, ast.UnaryOp) and isinstance(tv.op, ast.Not):
+                tv, pol = tv.operand, not pol
             if isinstance(tv, ast.Name):
                 v, d = F.value_of(F.at(ifn), tv.id)
                 tv = v if v is not None else tv
@@ -1540,12 +1683,24 @@ def index(repo, out):
             out.unsure(R.fn, s.ast, 'cannot tell whether this store is on the linear or the nonlinear branch')
             continue
         counters[c] = lin
-        incs = [n for n in g.where(lambda n: n.kind == 'stmt' and isinstance(n.ast, ast.AugAssign) and
-                                   astx.path(n.ast.target) == c) if n in body]
-        okinc = [n for n in incs if isinstance(n.ast.op, ast.Add) and isinstance(n.ast.value, ast.Name) and
-                 n.ast.value.id in size_names]
-        plain = [n for n in g.where(lambda n: n.kind == 'stmt' and isinstance(n.ast, ast.Assign) and
-                                    any(astx.path(t) == c for t in astx.assigned_targets(n.ast))) if n in body]
+        def step_of(n, c=c):
+            """What `c += e` / `c = c + e` / `c = e + c` adds to c; False if the statement is no increment."""
+            a = n.ast
+            if isinstance(a, ast.AugAssign) and astx.path(a.target) == c:
+                return a.value if isinstance(a.op, ast.Add) else None
+            if isinstance(a, ast.Assign) and len(a.targets) == 1 and astx.path(a.targets[0]) == c and \
+                    isinstance(a.value, ast.BinOp) and isinstance(a.value.op, ast.Add):
+                l, r = a.value.left, a.value.right
+                if isinstance(l, ast.Name) and l.id == c:
+                    return r
+                if isinstance(r, ast.Name) and r.id == c:
+                    return l
+            return False
+        writes = [n for n in g.where(lambda n: n.kind == 'stmt' and isinstance(n.ast, (ast.Assign, ast.AugAssign)) and
+                                     any(astx.path(t) == c for t in astx.assigned_targets(n.ast))) if n in body]
+        incs = [n for n in writes if step_of(n) is not False]
+        okinc = [n for n in incs if isinstance(step_of(n), ast.Name) and step_of(n).id in size_names]
+        plain = [n for n in writes if n not in incs]
         if plain:
             out.unsure(R.fn, plain[0].ast, f'{c} is rebound by a plain assignment inside the constraint loop')
             continue
@@ -1864,8 +2019,109 @@ _FIX_GRAD_NEW = ("    def _con_val_gradfunc(self, x_new, name, dbl, idx):\n"
                  "\n"
                  "    def _confunc(self, x_new, name, dbl, idx):\n")
 
+_CONFUNC_OLD = ("        cons = self._con_cache\n"
+                "        meta = self._cons[name]\n"
+                "\n"
+                "        lower_con, upper_con, equals_con = self._autoscaler.get_bounds_scaling('constraint')\n"
+                "\n"
+                "        # Equality constraints\n"
+                "        if meta['equals'] is not None:\n"
+                "            eq = equals_con[name]\n"
+                "            return cons[name][idx] - eq[idx]\n"
+                "\n"
+                "        # Note, scipy defines constraints to be satisfied when positive,\n"
+                "        # which is the opposite of OpenMDAO.\n"
+                "        upper = upper_con[name][idx]\n"
+                "        lower = lower_con[name][idx]\n"
+                "\n"
+                "        if dbl or (lower <= -INF_BOUND):\n"
+                "            return upper - cons[name][idx]\n"
+                "        else:\n"
+                "            return cons[name][idx] - lower\n")
+
+
+def _confunc_helper(upper_form='upper - con_cache[name][idx]', args='scaled_bounds[0], scaled_bounds[1]', eqslot=2):
+    """_confunc rewritten with an extracted private helper, tuple indexing and renamed locals (benign C21_3)."""
+    return ("        con_cache = self._con_cache\n"
+            "        con_meta = self._cons[name]\n"
+            "        scaled_bounds = self._autoscaler.get_bounds_scaling('constraint')\n"
+            "        if con_meta['equals'] is not None:\n"
+            f"            eq = scaled_bounds[{eqslot}][name]\n"
+            "            return con_cache[name][idx] - eq[idx]\n"
+            f"        return self._ineq_confunc(con_cache, name, dbl, idx, {args})\n"
+            "\n"
+            "    def _ineq_confunc(self, con_cache, name, dbl, idx, lower_con, upper_con):\n"
+            "        upper = upper_con[name][idx]\n"
+            "        lower = lower_con[name][idx]\n"
+            "        if dbl or (lower <= -INF_BOUND):\n"
+            f"            return {upper_form}\n"
+            "        else:\n"
+            "            return con_cache[name][idx] - lower\n")
+
+
+_DICT_OLD = ("                        con_dict = {}\n"
+             "                        if meta['equals'] is not None:\n"
+             "                            con_dict['type'] = 'eq'\n"
+             "                        else:\n"
+             "                            con_dict['type'] = 'ineq'\n"
+             "                        con_dict['fun'] = WeakMethodWrapper(self, '_confunc')\n")
+_DDICT_OLD = ("                        dblcon = (upper_j < INF_BOUND) and (lower_j > -INF_BOUND)\n"
+              "\n"
+              "                        # Add extra constraint if double-sided\n"
+              "                        if dblcon:\n"
+              "                            dcon_dict = {}\n"
+              "                            dcon_dict['type'] = 'ineq'\n"
+              "                            dcon_dict['fun'] = WeakMethodWrapper(self, '_confunc')\n")
+_DDICT_NEW = ("                        if (upper_j < INF_BOUND) and (lower_j > -INF_BOUND):\n"
+              "                            dcon_dict = {'type': 'ineq',\n"
+              "                                         'fun': WeakMethodWrapper(self, '_confunc')}\n")
+
+
+def _dict_new(texpr):
+    return (f"                        con_type = {texpr}\n"
+            "                        con_dict = {'type': con_type,\n"
+            "                                    'fun': WeakMethodWrapper(self, '_confunc')}\n")
+
+
+_IDX_OLD = ("                if linear:\n"
+            "                    self._con_idx[name] = lin_i\n"
+            "                    lin_i += size\n"
+            "                else:\n"
+            "                    self._obj_and_nlcons.append(name)\n"
+            "                    self._con_idx[name] = nl_i\n"
+            "                    nl_i += size\n")
+
+
+def _idx_new(step='nl_i + size'):
+    return ("                if not linear:\n"
+            "                    self._obj_and_nlcons.append(name)\n"
+            "                    self._con_idx[name] = nl_i\n"
+            f"                    nl_i = {step}\n"
+            "                else:\n"
+            "                    self._con_idx[name] = lin_i\n"
+            "                    lin_i = size + lin_i\n")
+
+
 selftest(
     'C21',
+    # ---- refactored shapes (benign C21_2 / C21_3): accepted when right, still reported when wrong
+    Twin('twin-confunc-helper-tuple-index', _S, _CONFUNC_OLD, _confunc_helper()),
+    Mutant('cover-helper-upper-sign', _S, _CONFUNC_OLD, _confunc_helper(upper_form='con_cache[name][idx] - upper'), 'C21.cover'),
+    Mutant('cover-helper-args-swapped', _S, _CONFUNC_OLD, _confunc_helper(args='scaled_bounds[1], scaled_bounds[0]'), 'C21.cover'),
+    Mutant('cover-helper-eq-slot', _S, _CONFUNC_OLD, _confunc_helper(eqslot=1), 'C21.cover'),
+    Mutant('sign-helper-upper-sign', _S, _CONFUNC_OLD, _confunc_helper(upper_form='con_cache[name][idx] - upper'), 'C21.sign'),
+    Twin('twin-dict-literals-hoisted-type', _S, _DICT_OLD, _dict_new("'ineq' if meta['equals'] is None else 'eq'"),
+         also=[(_S, _DDICT_OLD, _DDICT_NEW)]),
+    Mutant('cover-dict-literal-type-flipped', _S, _DICT_OLD, _dict_new("'eq' if meta['equals'] is None else 'ineq'"), 'C21.cover',
+           also=[(_S, _DDICT_OLD, _DDICT_NEW)]),
+    Mutant('cover-dict-literal-inline-guard-never', _S, _DICT_OLD, _dict_new("'ineq' if meta['equals'] is None else 'eq'"), 'C21.cover',
+           also=[(_S, _DDICT_OLD, _DDICT_NEW.replace('(lower_j > -INF_BOUND)', '(lower_j > INF_BOUND)'))]),
+    Mutant('emit-dict-literal-not-appended', _S, _DICT_OLD, _dict_new("'ineq' if meta['equals'] is None else 'eq'"), 'C21.emit',
+           also=[(_S, _DDICT_OLD, _DDICT_NEW), (_S, "                            constraints.append(dcon_dict)\n", "                            pass\n")]),
+    Twin('twin-index-inverted-plain-increment', _S, _IDX_OLD, _idx_new()),
+    Mutant('index-plain-increment-by-one', _S, _IDX_OLD, _idx_new('nl_i + 1'), 'C21.index'),
+    Mutant('index-inverted-branches-counters-swapped', _S, _IDX_OLD,
+           _idx_new().replace('= nl_i\n', '= lin_i\n', 1), 'C21.index'),
     # ---- loopdef
     Mutant('loopdef-f6-prefix-shape', _S, _OLD_ELEM,
            "                        if isinstance(upper, np.ndarray):\n"
